@@ -25,17 +25,19 @@ S2F = ['stream2_s%02d_f' % i for i in range(3)]
 S2 = ['stream2_s%02d_%s' % (i, d) for i in range(3) for d in 'fr']
 S3 = ['stream3_s%02d_%s' % (i, d) for i in range(25) for d in 'fr']
 SQ3 = ['streamq3_s04_f', 'streamq3_s12_r']          # join forward, fork reversed (= join in walk order)
-SQ3_ALL = ['streamq3_s%02d_%s' % (i, d) for i in (4, 12, 10, 13) for d in 'fr']
+SQ3_ALL = ['streamq3_s%02d_%s' % (i, d) for i in range(25) for d in 'fr']
+# full consumer bound (2n+1 polls, n drops) on the shapes with a join, a fork, a chain and the triangle
+S3_FULL = ['stream3_s%02d_%s' % (i, d) for i in (4, 12, 10, 13, 0, 8) for d in 'fr']
 STREAM_QUICK = S2F + SQ3
 SQ4 = ['streamq4_s%02d_%s' % (i, d) for i in range(6) for d in 'fr']
-STREAM_THOROUGH = S2 + SQ3_ALL + S3 + ['stream_sym_n2'] + SQ4
+STREAM_THOROUGH = S2 + SQ3_ALL + S3_FULL + ['stream_sym_n2'] + SQ4
 BUILD_QUICK = ['build_n2']
-AUG_QUICK = ['augment_n2', 'augment3_s04']
-AUG_MID = ['augment_n2', 'augment3_s04', 'augment3_s09', 'augment3_s11']
+AUG_QUICK = ['augment_n2', 'augment3_s04', 'augment3_s01']
+AUG_MID = ['augment_n2', 'augment3_s04', 'augment3_s01', 'augment3_s00', 'augment3_s09', 'augment3_s11']
 AUG_ALL = ['augment_n2'] + ['augment3_s%02d' % i for i in range(25)]
 
 STREAM_BOUNDS = {
-    'graphs': 'quick: all 3 labelled DAGs on 2 functions (forward) + the join (0->2,1->2 forward) and the fork (0->1,0->2 walked in reverse) on 3 functions; thorough: all 25 labelled DAGs on 3 functions and all 3 on 2, each forward and reverse, a fully symbolic 2-function graph (symbolic edges, kinds and order), and 6 shapes on 4 functions (join with tail, chain into fork, two parallel chains, diamond, N, join whose tail was inserted first), forward and reverse, with the quick consumer bound',
+    'graphs': 'quick: all 3 labelled DAGs on 2 functions (forward) + the join (0->2,1->2 forward) and the fork (0->1,0->2 walked in reverse) on 3 functions; thorough: all 25 labelled DAGs on 3 functions (quick consumer bound; 6 of them also with the full bound) and all 3 on 2, each forward and reverse, a fully symbolic 2-function graph (symbolic edges, kinds and order), and 6 shapes on 4 functions (join with tail, chain into fork, two parallel chains, diamond, N, join whose tail was inserted first), forward and reverse, with the quick consumer bound',
     'conflicts': 'symbolic: any symmetric relation in which every conflicting pair is joined by a path',
     'consumer': 'symbolic: 2n+1 poll_next calls (quick n=3: 2n-1), before each poll up to n (quick n=3: 2) drops of symbolically chosen held FnRefs, i.e. any number in any order between two polls; stream dropped with refs still held, refs dropped afterwards',
     'unwind': 'n+1 (all loops, unwinding assertions on)',
@@ -99,7 +101,7 @@ PROPERTIES = {
         'thorough': AUG_ALL,
         'attribute_panics': True,
         'functions': AUG_FUNCS,
-        'bounds': {'graphs': 'symbolic 2-function user graph; user graphs on 3 functions enumerated (quick: join, chain, 0->1 + 2->1; thorough: all 25)', 'access': 'symbolic: 2 data types x {none, read, write} per function', 'ranks': 'the longest-chain reference that the C13 harness proves equal to RankCalc::calc', 'unwind': 6},
+        'bounds': {'graphs': 'symbolic 2-function user graph; user graphs on 3 functions enumerated (quick: join, no edges, 1->2, chain, 0->1 + 2->1; thorough: all 25)', 'access': 'symbolic: 2 data types x {none, read, write} per function', 'ranks': 'the longest-chain reference that the C13 harness proves equal to RankCalc::calc', 'unwind': 6},
         'outside': ['more than 3 functions, more than 2 data types', 'build() as a whole (rank -> augment -> counts -> copies in one call) is not executed in one harness: the stages are decided separately', 'structure copies and predecessor counts (no harness yet)'],
         'assumptions': [M_DAGGY, M_SMALLVEC, M_FLAGS, M_REPLAY],
         'claim': 'DataEdgeAugmenter::augment never panics (update_edge().expect is an assertion), keeps every function under its id and every user edge with its kind, adds only Data edges, leaves the graph acyclic without duplicate edges, joins every conflicting pair by a path and adds a Data edge only between conflicting functions.',
@@ -137,8 +139,8 @@ PROPERTIES = {
         'note': 'decides fn_graph\'s use of daggy (update_edge vs add_edge, argument order, kinds); daggy\'s reachability is trusted.',
     },
     'C18': {
-        'quick': ['rankv_n3', 'rank_fwd_n4'],
-        'thorough': ['rankv_n2', 'rankv_n3', 'rank_n4', 'rank_fwd_n4'],
+        'quick': ['rankv_fwd_n3', 'rank_fwd_n4'],
+        'thorough': ['rankv_n2', 'rankv_fwd_n3', 'rankv_n3', 'rank_n4', 'rank_fwd_n4'],
         'functions': ['RankCalc::calc with the verif_hooks pop counter'],
         'bounds': {'graphs': 'symbolic as for C13; n = 3 (all ordered pairs) and n = 4 (forward pairs; thorough: all ordered pairs)', 'unwind': 'n = 3: n*n+2 = 11, so that every run in which no function is popped more than n times runs to the assertion; n = 4: 2^(n-1)+2 = 10 (what the current algorithm needs; a change that needs more is reported as inconclusive, not as held)'},
         'outside': ['n >= 5: the smallest size at which walking every path exceeds n visits per function (2^(n-2) = 8 > 5) exhausts the solver memory here (2.0 M program steps, > 30 GB); see DESIGN.md C18', 'work of the other build stages'],
@@ -204,11 +206,33 @@ PROPERTIES['C20'] = {
     'note': 'stream family only.',
 }
 
+# RepInv is what C01 and C14 rest on as well: build_n2's C02-tagged assertions count for them
+PROPERTIES['C01']['quick'] = AUG_QUICK + BUILD_QUICK + STREAM_QUICK
+PROPERTIES['C01']['thorough'] = AUG_ALL + BUILD_QUICK + STREAM_THOROUGH
+PROPERTIES['C01']['tags'] = ['C01', 'C02']
+PROPERTIES['C01']['functions'] = AUG_FUNCS + ['FnGraphBuilder::build (structure copies, predecessor counts; 2 functions)'] + STREAM_FUNCS
+PROPERTIES['C14']['quick'] = ['iter_sym_n3'] + BUILD_QUICK
+PROPERTIES['C14']['thorough'] = ['iter_sym_n2', 'iter_sym_n3'] + BUILD_QUICK
+PROPERTIES['C14']['tags'] = ['C14', 'C02']
+PROPERTIES['C14']['functions'] += ['FnGraphBuilder::build (the structures iter / iter_rev / toposort walk; 2 functions)']
+PROPERTIES['C14']['note'] = 'iter / iter_rev / toposort walk graph_structure(_rev): their claim is the composition of the RepInv assertions of build_n2 (tag C02, counted here) with the iteration harness over any RepInv graph.'
+
+PROPERTIES['C17'] = {
+    'quick': ['ginfo_n3'],
+    'thorough': ['ginfo_n2', 'ginfo_n3'],
+    'attribute_panics': True,
+    'functions': ['GraphInfo::from_graph', 'GraphInfo::iter', 'GraphInfo::iter_rev', 'GraphInfo::iter_insertion_with_indices'],
+    'bounds': {'graphs': 'fully symbolic built graph on 3 (thorough also 2) functions: per pair no edge / either direction, symbolic kinds incl. Data', 'unwind': 5},
+    'outside': ['the serialisation clause: serde_yaml string processing is out of reach of CBMC and with daggy modelled the Serialize / Deserialize impls of Dag are stubs, not the real ones', 'more than 3 functions'],
+    'assumptions': [M_DAGGY + '; add_edges and Topo over Reversed are covered by the conformance tests', M_FLAGS, M_REPLAY],
+    'claim': 'GraphInfo::from_graph yields one node per function in insertion order mapped through the caller\'s function and exactly the edges of the built graph (same order, endpoints and kinds, Data edges included) and never panics (add_edges().expect); iter is topological and iter_rev reverse-topological over all nodes.',
+    'note': 'first and third clause only; "serialising and deserialising yields an equal value" is NOT decided.',
+}
+
 NOT_APPLICABLE = {
     'C04': 'fold_async*/try_fold_async*/for_each_concurrent*/try_for_each_concurrent* are deep async state machines: Kani lowers them to nested unions and CBMC did not finish symbolic execution of a single call on the EMPTY graph within 30 min (DESIGN.md section 2); the property is entirely about those calls.',
     'C07': 'failure handling lives in the try_for_each_concurrent*/try_fold_async* bodies (deep async, out of reach of CBMC here, DESIGN.md section 2).',
     'C08': 'interruption handling of the fold/for_each calls is deep async (out of reach); the stream_interruptible clause has no harness yet.',
     'C10': 'the limit is enforced by StreamExt::for_each_concurrent inside the deep async bodies; there is no fn_graph code outside them to execute symbolically.',
-    'C17': 'no harness yet (GraphInfo::from_graph); the serialisation clause is out of reach (serde_yaml string processing).',
     'C19': 'auto-trait membership (Send/Sync) of opaque types is decided by rustc\'s trait solver at type-check time: there is no execution, input or schedule to make symbolic and no SMT query whose verdict answers it.',
 }
